@@ -352,3 +352,218 @@ def remove_node_table(repo, run, rule):
         run.violation(rule, fi, '_remove_node', '; '.join(bad))
     else:
         run.ok(rule, fi, '_remove_node on a missing / existing / empty path', 'None / remove_fn(parent, name) / ValueError')
+
+
+def _tree(spec, name='root'):
+    """abstract tree from a nested dict spec: {'a': None (leaf), 'b': {...}}"""
+    kids = {}
+    for k, v in spec.items():
+        kids[k] = node_obj(name + '.' + k, 'ConfigNode') if v is None else _tree(v, name + '.' + k)
+    return node_obj(name, 'ConfigDict', _children=kids)
+
+
+def _shape(o):
+    ch = o.f.get('_children')
+    if not isinstance(ch, dict):
+        return None
+    return {k: _shape(v) for k, v in ch.items()}
+
+
+def filter_nodes_table(repo, run, rule):
+    """ComposedNode.ayns.filter_nodes evaluated on a two-level tree for every verdict table of the condition: an entry survives
+    iff the condition keeps it or it is a container that still has entries after filtering; every removed path is reported"""
+    import itertools
+    fi = repo.func('ComposedNode.ayns.filter_nodes')
+    spec = {'a': None, 'b': {'c': None, 'd': None}, 'e': {}}
+    paths = [('a',), ('b',), ('b', 'c'), ('b', 'd'), ('e',)]
+    bad = []
+    rows = 0
+    for verdicts in itertools.product((False, True), repeat=len(paths)):
+        keepers = {p for p, v in zip(paths, verdicts) if v}
+        root = _tree(spec)
+
+        def cond(path, node, keepers=keepers):
+            return tuple(path[1:]) in keepers       # (paths carry the prefix 'r' the walk was started with)
+        cond._fde_ok = True
+
+        def stub(name, recv, args, kwargs):
+            if name == 'named_children':
+                return list(recv.f['_children'].items())
+            if name == 'remove_child':
+                return recv.f['_children'].pop(args[0], None)
+            if name == 'set_child':
+                recv.f['_children'][args[0]] = args[1]
+                return args[1]
+            if name == 'get_list_path':
+                return list(args[0]) if args and args[0] is not None else []
+            if name == 'add' and getattr(recv, 'name', None) == 'removed':
+                removed.add(tuple(args[0][1:]))
+                return None
+            raise AnalysisError('filter_nodes: unexpected stub ' + name)
+        ev = _fde(repo, stubs={'named_children', 'remove_child', 'set_child', 'get_list_path', 'add'}, stub=stub)
+        removed = set()
+        try:
+            r = ev.call(fi, root, cond, prefix=['r'], removed=Obj('removed', '<set of paths>'))
+        except Unsupported as e:
+            raise AnalysisError('filter_nodes: finite-domain evaluator refused: %s' % e)
+        rows += 1
+        # model
+        want_b = {k: None for k in ('c', 'd') if ('b', k) in keepers}
+        want = {}
+        want_removed = set()
+        if ('a',) in keepers:
+            want['a'] = None
+        else:
+            want_removed.add(('a',))
+        for k in ('c', 'd'):
+            if ('b', k) not in keepers:
+                want_removed.add(('b', k))
+        if ('b',) in keepers or want_b:
+            want['b'] = want_b
+        else:
+            want_removed.add(('b',))
+        if ('e',) in keepers:
+            want['e'] = {}
+        else:
+            want_removed.add(('e',))
+        got = _shape(root)
+        if r.raised:
+            bad.append('raises %s for keepers %s' % (r.raised, sorted(keepers)))
+        elif got != want:
+            bad.append('condition keeps %s: tree afterwards %s, expected %s' % (sorted('.'.join(p) for p in keepers), got, want))
+        elif removed != want_removed:
+            bad.append('condition keeps %s: removed paths reported %s, expected %s' % (sorted('.'.join(p) for p in keepers), sorted(removed), sorted(want_removed)))
+    if bad:
+        run.violation(rule, fi, 'filter_nodes', '; '.join(bad[:2]))
+    else:
+        run.ok(rule, fi, 'filter_nodes evaluated for %d verdict tables on a two-level tree' % rows, 'kept iff the condition keeps it or it is a container left non-empty; removed paths all reported')
+
+
+def promotions_enabled(repo, run, rule):
+    """the container merge lets the surviving node be promoted: every _replace_self / _replace_other it ends with is called with
+    allow_promotions=True (a plain mapping or list merged with a !call / !bind / !path ... node keeps the richer node's kind)"""
+    from . import mergetrace as mt
+    fi = repo.func('ComposedNode.ayns.on_merge_impl')
+    seen = {}
+    for p in tr.paths_of(repo, fi, no_inline=set(mt.NI), follow_exceptions=False):
+        for e in p.events:
+            if e.kind == 'call' and e.attr in ('_replace_self', '_replace_other'):
+                v = e.kw.get('allow_promotions') or (e.args[1] if len(e.args) > 1 else None)
+                seen.setdefault((id(e.node), v.const is True if v is not None else False), e)
+    if len(seen) < 2:
+        raise AnalysisError('ComposedNode.on_merge_impl: the survivor decisions (_replace_self / _replace_other) were not found')
+    bad = [e for (k, ok), e in seen.items() if not ok]
+    if bad:
+        run.violation(rule, tr.where(fi, bad[0]), norm(bad[0].node)[:80], 'the container merge combines the two nodes without allowing promotion: a plain mapping / list that wins over a function or path node silently drops that node\'s kind (and the other way round)')
+    else:
+        run.ok(rule, fi, '%d survivor decisions of the container merge pass allow_promotions=True' % len(seen))
+
+
+def removed_root_excepted(repo, run, rule):
+    """when a deleting node replaces a whole emptied subtree, the new-path check of the replacing node excepts what was removed -
+    including the root of that subtree itself (its path is added to the set before the check)"""
+    from . import mergetrace as mt
+    fi = repo.func('ComposedNode.ayns.on_merge_impl')
+    pth = fi.params()[1]
+    n = 0
+    bad = None
+    for p in tr.paths_of(repo, fi, no_inline=set(mt.NI), follow_exceptions=False):
+        for i, e in enumerate(p.events):
+            if e.kind == 'call' and e.attr == '_require_all_new' and 'exceptions' in e.kw and e.recv is not None and e.recv.text.startswith('other'):
+                n += 1
+                exc = e.kw['exceptions'].text
+                adds = [x for x in p.events[:i] if x.kind == 'call' and x.attr == 'add' and x.recv is not None and x.recv.text == exc and x.args and x.args[0].text == pth]
+                if not adds:
+                    bad = e
+    if n == 0:
+        raise AnalysisError('ComposedNode.on_merge_impl: the new-path check of a replacing deleting node (exceptions=<removed>) was not found')
+    if bad is not None:
+        run.violation(rule, tr.where(fi, bad), norm(bad.node)[:90], 'the path of the replaced subtree itself is not among the exceptions of the new-path check: a !notnew / deleting node that replaces an existing (emptied) container is rejected as if it created a new path')
+    else:
+        run.ok(rule, fi, 'the replaced subtree\'s own path is excepted from the new-path check of the node that replaces it')
+
+
+def config_entry(repo, run, rule):
+    """Config.build / Config.__init__: what the caller passes arrives where it is used - the sources and their options at the builder,
+    the caller's evaluation context at the evaluation (a fresh EvalContext only when none was given), the merged tree at the
+    required-value check, a deep copy of it at the evaluation, the evaluated mapping at the Bunch constructor"""
+    bf = repo.func('Config.build')
+    probs = []
+    n = 0
+    for p in tr.paths_of(repo, bf, follow_exceptions=False):
+        if p.status != 'return':
+            continue
+        n += 1
+        adds = [e for e in p.events if e.kind == 'call' and e.attr == 'add_multiple_sources']
+        mk = [e for e in p.events if e.kind == 'call' and e.callee in ('Config', 'cls')]
+        if len(adds) != 1 or not adds[0].args or adds[0].args[0].text != '*sources' or any(adds[0].kw.get(k) is None or adds[0].kw[k].text != k for k in ('raw_yaml', 'filename')):
+            probs.append('the sources / raw_yaml / filename arguments are not handed to Builder.add_multiple_sources as given')
+        if len(mk) != 1 or not mk[0].args or not mk[0].args[0].text.endswith('.build()') or mk[0].kw.get('eval_ctx') is None or mk[0].kw['eval_ctx'].text != 'eval_ctx':
+            probs.append('the result of Builder.build() and the caller\'s eval_ctx are not what the Config is constructed from (%s)' % (norm(mk[0].node)[:60] if mk else 'no Config(...) call'))
+        elif p.ret is None or p.ret.text != mk[0].result.text:
+            probs.append('Config.build does not return the Config it constructed')
+    if not n:
+        raise AnalysisError('Config.build: no returning path')
+    if probs:
+        run.violation(rule, bf, 'Config.build', '; '.join(sorted(set(probs))))
+    else:
+        run.ok(rule, bf, 'Config.build(*sources, raw_yaml, filename, eval_ctx) -> Config(Builder().build(), eval_ctx=eval_ctx)')
+    fi = repo.func('Config.__init__')
+    bad = []
+    for case in ('ctx-given', 'ctx-default', 'empty', 'none', 'not-a-dict'):
+        log = []
+        given = Obj('given_ctx', 'EvalContext', user_data='given-data')
+        fresh = Obj('fresh_ctx', 'EvalContext', user_data='fresh-data')
+        tree = node_obj('tree', 'ConfigDict', _children={'a': node_obj('a')}) if case in ('ctx-given', 'ctx-default') else (node_obj('tree', 'ConfigDict', _children={}) if case == 'empty' else None)
+        copy_ = node_obj('copy-of-tree', 'ConfigDict', _children={'a': node_obj('a2')})
+
+        def stub(name, recv, args, kwargs):
+            log.append((name, getattr(recv, 'name', None), tuple(getattr(a, 'name', a) for a in args)))
+            if name == 'evaluate':
+                return {'evaluated-by': recv.name}
+            return None
+
+        def deepcopy(x, *a):
+            log.append(('deepcopy', None, (getattr(x, 'name', x),)))
+            return copy_
+        deepcopy._fde_ok = True
+        ev = _fde(repo, stubs={'check_missing', 'evaluate', '__init__'}, stub=stub)
+        ev.extcalls['copy.deepcopy'] = deepcopy
+        ev.constructors['EvalContext'] = lambda *a, **k: fresh
+        ev.constructors['ConfigDict'] = lambda *a, **k: node_obj('wrapped', 'ConfigDict', _children={})
+        me = Obj('cfg', 'Config')
+        arg = [1, 2] if case == 'not-a-dict' else tree
+        try:
+            r = ev.call(fi, me, arg, given if case == 'ctx-given' else None)
+        except Unsupported as e:
+            raise AnalysisError('Config.__init__: finite-domain evaluator refused: %s' % e)
+        evs = [x for x in log if x[0] == 'evaluate']
+        inits = [x for x in log if x[0] == '__init__']
+        if case == 'not-a-dict':
+            if r.raised != 'ValueError':
+                bad.append('a non-mapping argument: %s (expected ValueError)' % (r.raised or 'accepted'))
+            continue
+        if r.raised:
+            bad.append('%s: raises %s' % (case, r.raised))
+            continue
+        if case in ('ctx-given', 'ctx-default'):
+            ctxname = 'given_ctx' if case == 'ctx-given' else 'fresh_ctx'
+            if evs != [('evaluate', ctxname, ('copy-of-tree',))]:
+                bad.append('%s: the evaluation is %s, expected %s.evaluate(<deep copy of the merged tree>)' % (case, evs or 'not done', ctxname))
+            if not any(x[0] == 'check_missing' and (x[2] == ('tree',) or (x[1] == 'tree' and not x[2])) for x in log):
+                bad.append('%s: the required-value check does not run on the merged tree' % case)
+            if me.f.get('_source') is not tree:
+                bad.append('%s: ayns.source is not the merged tree' % case)
+            if me.f.get('_user_data') != ('given-data' if case == 'ctx-given' else 'fresh-data'):
+                bad.append('%s: user data is not taken from the context that evaluated' % case)
+            if len(inits) != 1 or inits[0][2] != ({'evaluated-by': ctxname},):
+                bad.append('%s: the mapping handed to the Bunch constructor is %s, expected what evaluate returned' % (case, inits))
+        else:
+            if evs:
+                bad.append('%s: an empty config is evaluated' % case)
+            if len(inits) != 1 or inits[0][2] != ({},):
+                bad.append('%s: the Bunch constructor receives %s, expected {}' % (case, inits))
+    if bad:
+        run.violation(rule, fi, 'Config(config_dict, eval_ctx)', '; '.join(bad[:3]))
+    else:
+        run.ok(rule, fi, 'Config.__init__ evaluated for 5 argument shapes', 'caller\'s context used when given; check_missing on the tree; a deep copy is evaluated; source kept')
